@@ -134,7 +134,15 @@ def run(ctx):
         if len(poss) != 1 or not isinstance(poss[0].value, ast.Tuple) or len(poss[0].value.elts) != 3:
             ctx.violation("Z3", R.parse, "error-pos-shape", "error_pos is not assigned a (line, column, length) triple in the handler", node=h)
             continue
-        e0, e1, e2 = poss[0].value.elts
+        def local_value(e, h=h):
+            # a component computed into a local of the handler first (`lineno = self.lexer.curlineno()`)
+            if isinstance(e, ast.Name):
+                ds = [a for a in walk_no_nested(h) if isinstance(a, ast.Assign) and len(a.targets) == 1 and isinstance(a.targets[0], ast.Name)
+                      and a.targets[0].id == e.id]
+                if len(ds) == 1 and ds[0].lineno <= e.lineno:
+                    return ds[0].value
+            return e
+        e0, e1, e2 = [local_value(x) for x in poss[0].value.elts]
         ok0 = isinstance(e0, ast.Call) and call_name(e0) == "curlineno" and "lexer" in norm(e0.func)
         ok1 = isinstance(e1, ast.Call) and call_name(e1) == "curcolno" and "lexer" in norm(e1.func)
         ok2 = isinstance(e2, ast.Call) and call_name(e2) == "len" and e2.args and isinstance(e2.args[0], ast.Name) and e2.args[0].id == tval
@@ -151,7 +159,7 @@ def run(ctx):
             from sa.template import template, holes
             hs = holes(template(v))
             if hs:
-                first = hs[0].expr
+                first = local_value(hs[0].expr)
             if first is not None and (norm(first).endswith("error_pos[0]") or (isinstance(first, ast.Call) and call_name(first) == "curlineno")):
                 ctx.holds("Z3", "error text line = %s" % norm(first))
             else:
